@@ -55,7 +55,7 @@ func zeroGuarded(fn *ssa.Function, b *ssa.BasicBlock, match func(slice map[ssa.V
 }
 
 func runC10(c *core.Ctx) {
-	c.Explanation = "Structural clauses of the test verdict, decided on SSA: (exitguard) both output branches of runTest reach `return nil` only behind the zero edge of a test of Statistics.Fails, and ErrExit reaches os.Exit(non-zero) in main; (failpair) after every ProcessTestSubroutine call the err != nil edge calls Counter.Fail and the recorded TestCase.Error derives from that err; (freshinterp) for ungrouped tests the interpreter passed to ProcessTestSubroutine is the result of setupInterpreter called inside the statement loop, TestProcessInit on it dominates the run, and setupInterpreter builds interpreter.New and re-injects testing variables/functions; (assertwrap) every assertion closure returns the error of its Assert* call, calls Fail exactly on the err != nil edge and Pass on the other; (assertname) the table entry `assert.x` runs the implementation Assert_x; (instrdup) no fresh node built by the coverage instrumentation holds an expression of the original tree (it would be evaluated twice under --coverage); (globals) the package-level state written by anything reachable (CHA call graph) from the per-test entry points is exactly the reviewed set — a new global written during a test is state that can leak between tests; (counter) Pass/Fail/Skip increment their own field by one. Decides the structure that makes verdicts faithful and tests independent; not the semantics of coverage instrumentation."
+	c.Explanation = "Structural clauses of the test verdict, decided on SSA: (exitguard) both output branches of runTest reach `return nil` only behind the zero edge of a test of Statistics.Fails, and ErrExit reaches os.Exit(non-zero) in main; (failpair) after every ProcessTestSubroutine call the err != nil edge calls Counter.Fail and the recorded TestCase.Error derives from that err; (freshinterp) for ungrouped tests the interpreter passed to ProcessTestSubroutine is the result of setupInterpreter called inside the statement loop, TestProcessInit on it dominates the run, and setupInterpreter builds interpreter.New and re-injects testing variables/functions; (assertwrap) every assertion closure returns the error of its Assert* call, calls Fail exactly on the err != nil edge and Pass on the other; (assertname) the table entry `assert.x` runs the implementation Assert_x; (instrdup) no fresh node built by the coverage instrumentation holds an expression of the original tree (it would be evaluated twice under --coverage); (globals) the package-level state written by anything reachable (CHA call graph) from the per-test entry points is exactly the reviewed set — a new global written during a test is state that can leak between tests; (counter) Pass/Fail/Skip increment their own field by one. Decides the structure that makes verdicts faithful and tests independent; not the semantics of coverage instrumentation. (test.defsrestore) a describe group writes back the shared definitions it shadowed; test.globals recognises memo tables."
 	c.NotCovered = []string{"that coverage instrumentation preserves semantics (AST-to-AST equivalence is a value property)", "passed+failed+skipped = total as an arithmetic identity of the text report", "timing/timeouts"}
 	prog := c.Prog
 	all := prog.ModuleFuncs()
